@@ -16,6 +16,10 @@ use warp_core::{
     SchedulerCoordinator, SchedulerKind, StepRecord, TickDelta, WorldlineId, WorldlineRuntime, WorldlineState,
     WorldlineTick, WriterHead, WriterHeadKey,
 };
+use warp_core::{
+    IntentSubmissionDisposition, OpticAdmissionTicket, OpticArtifactHandle, ProvenanceEntry, ReceiptCorrelationPersistenceRecord,
+    TicketedRuntimeIngressAuthority, TicketedRuntimeIngressDisposition, OPTIC_ADMISSION_TICKET_KIND, OPTIC_ARTIFACT_HANDLE_KIND,
+};
 
 pub const DSL_MAGIC: &[u8] = b"VDSL";
 pub const RT_RULE_NAME: &str = "cmd/verif-dsl";
@@ -216,6 +220,14 @@ pub enum Step {
     Resume { wl: u8, head: u8 },
     SetPolicy { wl: u8, head: u8, policy: PolicySeed },
     Checkpoint { wl: u8 },
+    /// witnessed submission (`submit_intent`) followed, if `stage`, by ticketed runtime ingress
+    /// (`ingest_ticketed_invocation`) with admission ticket number `ticket`
+    SubmitTicketed { wl: u8, route: Route, kind: u8, prog: CandSeed, salt: u32, ticket: u8, stage: bool },
+    /// re-submit an earlier submission through plain runtime ingress, whatever path it took first
+    RetryPlain { which: u16 },
+    /// process restart: a fresh runtime with the same topology is rebuilt from the retained
+    /// witnessed submissions, provenance entries and receipt correlations
+    Restart,
 }
 
 pub fn policy_seed() -> impl Strategy<Value = PolicySeed> {
@@ -243,7 +255,9 @@ pub fn world_seed(max_wl: usize, max_heads: usize) -> impl Strategy<Value = Worl
 pub fn step_seed() -> impl Strategy<Value = Step> {
     let route = prop_oneof![3 => Just(Route::Default), 1 => (0u8..3).prop_map(Route::Named), 2 => (0u8..4).prop_map(Route::Exact)];
     prop_oneof![
-        8 => (any::<u8>(), route, 0u8..3, cand_seed(5), 0u32..4).prop_map(|(wl, route, kind, prog, salt)| Step::Submit { wl, route, kind, prog, salt }),
+        6 => (any::<u8>(), route.clone(), 0u8..3, cand_seed(5), 0u32..4).prop_map(|(wl, route, kind, prog, salt)| Step::Submit { wl, route, kind, prog, salt }),
+        3 => (any::<u8>(), route, 0u8..3, cand_seed(5), 0u32..4, 0u8..3, prop::bool::weighted(0.85)).prop_map(|(wl, route, kind, prog, salt, ticket, stage)| Step::SubmitTicketed { wl, route, kind, prog, salt, ticket, stage }),
+        1 => any::<u16>().prop_map(|which| Step::RetryPlain { which }),
         2 => any::<u16>().prop_map(|which| Step::Retry { which }),
         6 => Just(Step::Pass),
         1 => (any::<u8>(), any::<u8>()).prop_map(|(wl, head)| Step::Pause { wl, head }),
@@ -251,6 +265,48 @@ pub fn step_seed() -> impl Strategy<Value = Step> {
         1 => (any::<u8>(), any::<u8>(), policy_seed()).prop_map(|(wl, head, policy)| Step::SetPolicy { wl, head, policy }),
         1 => any::<u8>().prop_map(|wl| Step::Checkpoint { wl }),
     ]
+}
+
+/// Scripts for worlds in which every intent enters through the witnessed + ticketed path
+/// (the only path whose history is retained across a restart), with process restarts.
+pub fn step_seed_ticketed() -> impl Strategy<Value = Step> {
+    let route = prop_oneof![3 => Just(Route::Default), 1 => (0u8..3).prop_map(Route::Named), 2 => (0u8..4).prop_map(Route::Exact)];
+    prop_oneof![
+        8 => (any::<u8>(), route, 0u8..3, cand_seed(5), 0u32..4, 0u8..3, prop::bool::weighted(0.9)).prop_map(|(wl, route, kind, prog, salt, ticket, stage)| Step::SubmitTicketed { wl, route, kind, prog, salt, ticket, stage }),
+        2 => any::<u16>().prop_map(|which| Step::Retry { which }),
+        2 => any::<u16>().prop_map(|which| Step::RetryPlain { which }),
+        6 => Just(Step::Pass),
+        2 => Just(Step::Restart),
+        1 => (any::<u8>(), any::<u8>()).prop_map(|(wl, head)| Step::Pause { wl, head }),
+        1 => (any::<u8>(), any::<u8>()).prop_map(|(wl, head)| Step::Resume { wl, head }),
+        1 => any::<u8>().prop_map(|wl| Step::Checkpoint { wl }),
+    ]
+}
+
+/// Admission ticket number `seed` for one submission. Tickets are per submission (the live
+/// runtime refuses a second correlation under an already used ticket digest), so the digest
+/// is derived from the intent as well.
+pub fn admission_ticket(seed: u8, ingress_id: &[u8; 32], head: &WriterHeadKey) -> OpticAdmissionTicket {
+    let mut h = blake3::Hasher::new();
+    h.update(b"verif-ticket");
+    h.update(&[seed]);
+    h.update(ingress_id);
+    h.update(head.worldline_id.as_bytes());
+    h.update(head.head_id.as_bytes());
+    let digest = *h.finalize().as_bytes();
+    OpticAdmissionTicket {
+        kind: OPTIC_ADMISSION_TICKET_KIND.to_owned(),
+        artifact_handle: OpticArtifactHandle { kind: OPTIC_ARTIFACT_HANDLE_KIND.to_owned(), id: format!("verif-ticket-{seed}") },
+        artifact_hash: format!("artifact-hash-{seed}"),
+        operation_id: format!("operation-{seed}"),
+        requirements_digest: format!("requirements-{seed}"),
+        canonical_variables_digest: vec![seed],
+        basis_request_digest: [seed; 32],
+        aperture_request_digest: [seed.wrapping_add(1); 32],
+        budget_request_digest: [seed.wrapping_add(2); 32],
+        law_witness_digest: [seed.wrapping_add(3); 32],
+        ticket_digest: digest,
+    }
 }
 
 // ---------------------------------------------------------------------------
@@ -289,6 +345,19 @@ pub struct World {
     /// per head: distinct ingress ids the runtime accepted / total admitted_count over all passes
     pub accepted_ids: BTreeMap<WriterHeadKey, BTreeSet<[u8; 32]>>,
     pub admitted_total: BTreeMap<WriterHeadKey, u64>,
+    /// parallel to `submitted`: the admission ticket number of a ticketed submission
+    pub submitted_ticket: Vec<Option<u8>>,
+    /// number of process restarts so far
+    pub restarts: u32,
+    /// (head, ingress id) pairs that entered runtime ingress through a ticket at least once
+    pub staged: BTreeSet<(WriterHeadKey, [u8; 32])>,
+    /// pairs whose commit happened while their ticketed ingress record was live (retained
+    /// across restarts through the receipt correlation)
+    pub ticket_committed: BTreeSet<(WriterHeadKey, [u8; 32])>,
+    /// ingress id -> admission ticket number of the witnessed submission that introduced it
+    pub ticket_of: BTreeMap<[u8; 32], u8>,
+    /// committed ticks in which an admitted intent matched no rule while another one did
+    pub mixed_ticks: u32,
 }
 
 pub fn build_world(seed: &WorldSeed) -> World {
@@ -331,7 +400,28 @@ pub fn build_world(seed: &WorldSeed) -> World {
         checkpoints: vec![BTreeSet::new(); n],
         accepted_ids: BTreeMap::new(),
         admitted_total: BTreeMap::new(),
+        submitted_ticket: Vec::new(),
+        restarts: 0,
+        staged: BTreeSet::new(),
+        ticket_committed: BTreeSet::new(),
+        ticket_of: BTreeMap::new(),
+        mixed_ticks: 0,
     }
+}
+
+/// A runtime with the seed's topology (worldlines at their initial states, heads, policies)
+/// and nothing else: what a restarted process registers before restoring retained history.
+fn fresh_runtime(seed: &WorldSeed, initial: &[WorldlineState]) -> WorldlineRuntime {
+    let mut runtime = WorldlineRuntime::new();
+    for (i, (_, heads)) in seed.worldlines.iter().enumerate() {
+        runtime.register_worldline(wl_id(i as u8), initial[i].clone()).expect("register worldline");
+        for (h, hs) in heads.iter().enumerate() {
+            runtime
+                .register_writer_head(WriterHead::with_routing(head_key(i as u8, h as u8), PlaybackMode::Play, hs.policy.to_real(), hs.inbox.map(|k| InboxAddress(format!("in{k}-{h}"))), h == 0))
+                .expect("register head");
+        }
+    }
+    runtime
 }
 
 #[derive(Debug)]
@@ -364,7 +454,7 @@ impl World {
             Route::Default => IngressTarget::DefaultWriter { worldline_id: id },
             Route::Named(h) => {
                 let h = self.head_of(wl, *h);
-                match seed.worldlines[wl as usize].1[h as usize].inbox {
+                match seed.worldlines.get(wl as usize).and_then(|w| w.1.get(h as usize)).and_then(|hs| hs.inbox) {
                     Some(kx) => IngressTarget::InboxAddress { worldline_id: id, inbox: InboxAddress(format!("in{kx}-{h}")) },
                     None => IngressTarget::ExactHead { key: head_key(wl, h) },
                 }
@@ -385,7 +475,64 @@ impl World {
             _ => None,
         };
         self.submitted.push((env, head));
+        self.submitted_ticket.push(None);
         r
+    }
+
+    /// Witnessed submission, then (if `stage`) ticketed runtime ingress. Returns a tag.
+    pub fn submit_ticketed(&mut self, env: IngressEnvelope, ticket: u8, stage: bool) -> String {
+        let ticket = *self.ticket_of.entry(env.ingress_id()).or_insert(ticket);
+        let sub = self.runtime.submit_intent(env.clone());
+        let (submission_id, head, first) = match &sub {
+            Ok(IntentSubmissionDisposition::Accepted { submission_id, head_key, .. }) => (*submission_id, *head_key, true),
+            Ok(IntentSubmissionDisposition::Duplicate { submission_id, head_key, .. }) => (*submission_id, *head_key, false),
+            Err(_) => {
+                self.submitted.push((env, None));
+                self.submitted_ticket.push(Some(ticket));
+                return "ticketed:rejected".into();
+            }
+        };
+        self.submitted.push((env.clone(), Some(head)));
+        self.submitted_ticket.push(Some(ticket));
+        if !stage {
+            return if first { "ticketed:witnessed".into() } else { "ticketed:witnessed-duplicate".into() };
+        }
+        let auth = TicketedRuntimeIngressAuthority::assume_runtime_owner();
+        match self.runtime.ingest_ticketed_invocation(&auth, submission_id, &admission_ticket(ticket, &env.ingress_id(), &head), env.clone()) {
+            Ok(TicketedRuntimeIngressDisposition::Staged { ingress, .. }) => {
+                if let IngressDisposition::Accepted { head_key, ingress_id, .. } = ingress {
+                    self.accepted_ids.entry(head_key).or_default().insert(ingress_id);
+                    self.staged.insert((head_key, ingress_id));
+                }
+                "ticketed:staged".into()
+            }
+            Ok(TicketedRuntimeIngressDisposition::Duplicate { .. }) => "ticketed:duplicate".into(),
+            Err(e) => format!("ticketed:refused:{}", format!("{e:?}").chars().take(28).collect::<String>()),
+        }
+    }
+
+    /// Process restart (see `Step::Restart`). Inbox contents, eligibility and fault records are
+    /// volatile; witnessed submissions, provenance and receipt correlations are retained.
+    pub fn restart(&mut self, seed: &WorldSeed) -> Result<(), String> {
+        let retained = self.runtime.witnessed_submission_persistence_snapshot().map_err(|e| format!("snapshot: {e:?}"))?;
+        let mut entries: Vec<ProvenanceEntry> = Vec::new();
+        for wl in 0..self.n_wl() as u8 {
+            for t in 0..self.len(wl) {
+                entries.push(self.provenance.entry(wl_id(wl), wt(t)).map_err(|e| format!("entry: {e:?}"))?);
+            }
+        }
+        let correlations: Vec<ReceiptCorrelationPersistenceRecord> = self.runtime.receipt_correlations().map(ReceiptCorrelationPersistenceRecord::from).collect();
+        let mut fresh = fresh_runtime(seed, &self.initial);
+        fresh.restore_witnessed_submission_persistence(retained).map_err(|e| format!("restore submissions: {e:?}"))?;
+        fresh.restore_causal_runtime_history(&self.provenance, &entries, &correlations).map_err(|e| format!("restore history: {e:?}"))?;
+        self.runtime = fresh;
+        self.restarts += 1;
+        // per-incarnation bookkeeping (pending inbox contents are volatile)
+        self.accepted_ids.clear();
+        self.admitted_total.clear();
+        // staging records of uncommitted intents are volatile
+        self.staged = self.ticket_committed.clone();
+        Ok(())
     }
 
     /// One scheduler pass; records ledger entries for committed heads.
@@ -417,8 +564,15 @@ impl World {
                     // whose id is the ingress id
                     for e in receipt.entries() {
                         *self.committed.entry((rec.head_key, e.scope.local_id.0)).or_default() += 1;
+                        if self.staged.contains(&(rec.head_key, e.scope.local_id.0)) {
+                            self.ticket_committed.insert((rec.head_key, e.scope.local_id.0));
+                        }
                     }
                     *self.admitted_total.entry(rec.head_key).or_default() += rec.admitted_count as u64;
+                    let scopes: BTreeSet<[u8; 32]> = receipt.entries().iter().map(|e| e.scope.local_id.0).collect();
+                    if !scopes.is_empty() && scopes.len() < rec.admitted_count {
+                        self.mixed_ticks += 1;
+                    }
                 }
                 self.pass_records.push(records.clone());
                 PassOutcome::Ok(records)
@@ -426,6 +580,26 @@ impl World {
             Ok(Err(e)) => PassOutcome::Err(format!("{e:?}")),
             Err(p) => PassOutcome::Panic(vkit::panic_message(&p)),
         }
+    }
+
+    /// Fork worldline `parent` at `fork_tick` (entry index) into a new worldline that is
+    /// registered with the runtime (one default writer head, accept-all inbox) and continues
+    /// independently. Returns the child's index.
+    pub fn fork_worldline(&mut self, parent: u8, fork_tick: u64) -> Result<u8, String> {
+        let child = self.n_wl() as u8;
+        let id = wl_id(child);
+        self.provenance.fork(wl_id(parent), wt(fork_tick), id).map_err(|e| format!("fork: {e:?}"))?;
+        let init = self.initial[parent as usize].clone();
+        let state = self.provenance.replay_worldline_state_at(id, &init, wt(fork_tick + 1)).map_err(|e| format!("replay child: {e:?}"))?;
+        self.runtime.register_worldline(id, state).map_err(|e| format!("register child: {e:?}"))?;
+        self.runtime
+            .register_writer_head(WriterHead::with_routing(head_key(child, 0), PlaybackMode::Play, InboxPolicy::AcceptAll, None, true))
+            .map_err(|e| format!("register child head: {e:?}"))?;
+        self.initial.push(init);
+        self.n_heads.push(1);
+        self.ledger.push(self.ledger[parent as usize][..=fork_tick as usize].to_vec());
+        self.checkpoints.push(self.checkpoints[parent as usize].iter().copied().filter(|t| *t <= fork_tick + 1).collect());
+        Ok(child)
     }
 
     pub fn checkpoint(&mut self, wl: u8) -> Result<(), String> {
@@ -475,7 +649,12 @@ impl World {
                 if self.submitted.is_empty() {
                     return "retry:none".into();
                 }
-                let env = self.submitted[vkit::pick_idx(*which, self.submitted.len())].0.clone();
+                let ix = vkit::pick_idx(*which, self.submitted.len());
+                let env = self.submitted[ix].0.clone();
+                if let Some(t) = self.submitted_ticket[ix].or(self.ticket_of.get(&env.ingress_id()).copied()) {
+                    // a retry of a ticketed submission takes the same path with the same ticket
+                    return format!("retry-{}", self.submit_ticketed(env, t, true));
+                }
                 match self.submit(env) {
                     Ok(IngressDisposition::Accepted { .. }) => "retry:accepted".into(),
                     Ok(IngressDisposition::Duplicate { .. }) => "retry:duplicate".into(),
@@ -501,6 +680,35 @@ impl World {
                 "resume".into()
             }
             Step::SetPolicy { .. } => "set-policy:unsupported".into(),
+            Step::SubmitTicketed { wl, route, kind: k, prog, salt, ticket, stage } => {
+                let wl = self.wl_of(*wl);
+                let p = self.realise_prog(wl, prog);
+                let env = self.make_envelope(seed, wl, route, *k, &p, *salt);
+                self.submit_ticketed(env, *ticket, *stage)
+            }
+            Step::RetryPlain { which } => {
+                if self.submitted.is_empty() {
+                    return "retry:none".into();
+                }
+                let ix = vkit::pick_idx(*which, self.submitted.len());
+                let (env, head) = self.submitted[ix].clone();
+                // plain ingress of a witnessed submission is only ever a RETRY of something that
+                // already entered through its ticket (no real caller feeds a witnessed intent to
+                // plain ingress first; its commit would carry no retained correlation)
+                if self.ticket_of.contains_key(&env.ingress_id()) && !head.map(|h| self.staged.contains(&(h, env.ingress_id()))).unwrap_or(false) {
+                    return "retry-plain:skipped-never-staged".into();
+                }
+                match self.submit(env) {
+                    Ok(IngressDisposition::Accepted { .. }) => "retry:accepted".into(),
+                    Ok(IngressDisposition::Duplicate { .. }) => "retry:duplicate".into(),
+                    Ok(_) => "retry:other".into(),
+                    Err(_) => "retry:rejected".into(),
+                }
+            }
+            Step::Restart => match self.restart(seed) {
+                Ok(()) => "restart".into(),
+                Err(e) => format!("restart:failed:{e}"),
+            },
             Step::Checkpoint { wl } => {
                 let wl = self.wl_of(*wl);
                 match self.checkpoint(wl) {
